@@ -80,7 +80,7 @@ theorem elementary_card (ok : TranscOK α) {mn : String} {ps : List α} (h : Adm
   | p4 a b c d h =>
     exact by
       obtain ⟨t, hs, hsame⟩ := plane4_same ok a b c d h
-      exact card_of_same _ rfl hs hsame (fun _ => rfl)
+      exact card_of_same _ (planeCard_convert ok a b c d h) hs hsame (fun _ => rfl)
   | so r  =>
     exact by
       obtain ⟨t, hs, hsame⟩ := sphere_same (α := α) 0 0 0 r
@@ -389,7 +389,7 @@ theorem plane3 (ok : TranscOK α) (x1 y1 z1 x2 y2 z2 x3 y3 z3 : α)
     exact orient_spec (1 / s) hc n (n.dot p1) hnz _ _
   have hcadeq : cadOf (0:α) 0 "p" [x1, y1, z1, x2, y2, z2, x3, y3, z3] =
       (match planeFromPoints (0:α) 0 p1 p2 p3 with
-       | some [a, b, c, d] => some (cadPlane4 a b c d)
+       | some [a, b, c, d] => planeCard a b c d
        | _ => none) := by
     rw [← hp1, ← hp2, ← hp3]; rfl
   -- the spec's normal (p2 − p1) × (p3 − p1) is the code's (p1 − p2) × (p1 − p3)
@@ -410,14 +410,16 @@ theorem plane3 (ok : TranscOK α) (x1 y1 z1 x2 y2 z2 x3 y3 z3 : α)
   by_cases hf : flip3 n (n.dot p1) = true
   · have hcad : cadOf (0:α) 0 "p" [x1, y1, z1, x2, y2, z2, x3, y3, z3] =
         some (cadPlane4 (-(1 / s * n.x)) (-(1 / s * n.y)) (-(1 / s * n.z)) (-(1 / s * n.dot p1))) := by
-      rw [hcadeq, hpf]; simp [hf]
+      rw [hcadeq, hpf]; simp only [hf, if_true]
+      exact planeCard_some ok _ _ _ _ (by rw [show (-(1 / s * n.x)) * (-(1 / s * n.x)) + (-(1 / s * n.y)) * (-(1 / s * n.y)) + (-(1 / s * n.z)) * (-(1 / s * n.z)) = 1 by linear_combination hsq]; exact one_pos)
     obtain ⟨t, hst, hsame⟩ := plane4_same ok (-(1 / s * n.x)) (-(1 / s * n.y)) (-(1 / s * n.z)) (-(1 / s * n.dot p1))
       (by rw [show (-(1 / s * n.x)) * (-(1 / s * n.x)) + (-(1 / s * n.y)) * (-(1 / s * n.y)) + (-(1 / s * n.z)) * (-(1 / s * n.z)) = 1 by linear_combination hsq]; exact one_pos)
     refine card_of_same _ hcad hst (same_scale hsame (1 / s) hc fun p => ?_) (fun p => by rw [hspec p])
     rw [if_pos hf]; simp only [V3.dot]; ring
   · have hcad : cadOf (0:α) 0 "p" [x1, y1, z1, x2, y2, z2, x3, y3, z3] =
         some (cadPlane4 (1 / s * n.x) (1 / s * n.y) (1 / s * n.z) (1 / s * n.dot p1)) := by
-      rw [hcadeq, hpf]; simp [hf]
+      rw [hcadeq, hpf]; simp only [hf, Bool.false_eq_true, if_false]
+      exact planeCard_some ok _ _ _ _ (by rw [hsq]; exact one_pos)
     obtain ⟨t, hst, hsame⟩ := plane4_same ok (1 / s * n.x) (1 / s * n.y) (1 / s * n.z) (1 / s * n.dot p1)
       (by rw [hsq]; exact one_pos)
     refine card_of_same _ hcad hst (same_scale hsame (1 / s) hc fun p => ?_) (fun p => by rw [hspec p])
